@@ -178,3 +178,27 @@ def run_realign(case, d, platform=None, cores=None, batch=None, sub="out.gaf", g
     except OSError:
         text = None
     return res, text
+
+
+def run_realign_subprocess(case, d, cores, batch, nofile=4096, timeout=180, out_name="out.gaf"):
+    """Real multiprocessing, in a child process with a time limit (a deadlock must not take the harness with it).
+    Returns ("ok"|"exit"|"timeout", status) and the output text or None."""
+    import subprocess
+    import sys as _sys
+
+    core.write_text(os.path.join(d, "g.gfa"), case["gfa"])
+    core.write_text(os.path.join(d, "in.gaf"), "".join(l + "\n" for l in case["gaf"]))
+    core.write_text(os.path.join(d, "reads.fa"), case["fasta"])
+    out = os.path.join(d, "out.gaf")
+    if os.path.exists(out):
+        os.remove(out)
+    drv = os.path.join(os.path.dirname(os.path.abspath(__file__)), "real_run_driver.py")
+    try:
+        p = subprocess.run([_sys.executable, drv, core.REPO, d, str(cores), str(batch or 1000), str(nofile)],
+                           timeout=timeout, stdout=subprocess.DEVNULL, stderr=subprocess.PIPE)
+    except subprocess.TimeoutExpired:
+        return ("timeout", timeout), None
+    text = core.read_text(out) if os.path.exists(out) else None
+    if p.returncode == 0:
+        return ("ok", None), text
+    return ("exit", "%d %s" % (p.returncode, p.stderr.decode(errors="replace")[-200:])), text
